@@ -283,6 +283,17 @@ def run_ctor(case):
     try:
         if case["kind"] == "ctor":
             cls[case["cls"]](**{case["field"]: from_tag(case["val"])})
+        elif case["kind"] == "setattr":
+            # the same value ASSIGNED to the field of an existing (default-constructed) object: a configuration object refuses an
+            # invalid value however it arrives (seed C20_r13)
+            try:
+                obj = cls[case["cls"]]()
+            except TypeError:
+                obj = None                      # no default construction: the constructor probe is all there is
+            if obj is None:
+                cls[case["cls"]](**{case["field"]: from_tag(case["val"])})
+            else:
+                setattr(obj, case["field"], from_tag(case["val"]))
         elif case["kind"] == "oneof":
             # every spelling of the same call: keywords, positional (declared field order), first member positional + keywords
             import attrs as _attrs
